@@ -119,7 +119,9 @@ impl WelcomeStorage for MdkSqliteStorage {
     ) -> Result<Vec<Welcome>, WelcomeError> {
         let pagination = pagination.unwrap_or_default();
         let limit = pagination.limit();
-        let offset = pagination.offset();
+        // SQLite integers are signed 64-bit: an offset above i64::MAX lies past every row. (A plain
+        // `as i64` cast would wrap to a negative OFFSET, which SQLite treats as 0: the first page.)
+        let offset = i64::try_from(pagination.offset()).unwrap_or(i64::MAX);
 
         // Validate limit is within allowed range
         if !(1..=MAX_PENDING_WELCOMES_LIMIT).contains(&limit) {
@@ -139,7 +141,7 @@ impl WelcomeStorage for MdkSqliteStorage {
                 .map_err(into_welcome_err)?;
 
             let welcomes_iter = stmt
-                .query_map(params![limit as i64, offset as i64], db::row_to_welcome)
+                .query_map(params![limit as i64, offset], db::row_to_welcome)
                 .map_err(into_welcome_err)?;
 
             let mut welcomes: Vec<Welcome> = Vec::new();
